@@ -1119,6 +1119,8 @@ func runPomWith(in *pomInput, cs *caseSpec, outDir string) (o outcome) {
 	}
 	if werr != nil {
 		o.writeErr = werr.Error()
+		// every generated pom update is addressed to a requirement of the file (or is a requirement to add)
+		bad("pom:valid-update-rejected", "every update is addressed to a requirement of the manifest, but Write failed: %v", werr)
 		return
 	}
 
